@@ -1211,13 +1211,9 @@ fn to_c_op1(op: Op, rng: &mut Rng, cur: &[u32; 14]) -> Vec<Op> {
                 Op::KbType(*rng.pick(KB_OF_LAYOUT[(l as usize) % 10]))
             }
         }
-        // the fuzzy lookup of a trie FILE answers in the file's own order over many keys: capi cases stay with the
-        // standard lookup (the fuzzy engine is exercised by the other cases, on TrieBuf dictionaries)
-        Op::Opts(mut o) => {
-            o[11] = 0;
-            if o[12] == 2 {
-                o[12] = 1;
-            }
+        // the lookup strategy is not an option of its own in the C API: the conversion engine option sets it (the fuzzy
+        // engine = prefix lookup, which a trie FILE answers over every matching key in key order: Model mdf_ops)
+        Op::Opts(o) => {
             // through chewing_config_set_int: one call per option that changes (the C value of each), now and then a
             // value outside the option's range (rejected with -1, nothing changes)
             let mut v: Vec<Op> = vec![];
@@ -1234,14 +1230,13 @@ fn to_c_op1(op: Op, rng: &mut Rng, cur: &[u32; 14]) -> Vec<Op> {
                 }
             }
             if rng.chance(1, 6) {
-                // (never 2 for the conversion engine: that is the fuzzy engine, which capi cases leave alone)
                 let n = rng.below(13) as u8;
                 let val = *rng.pick(&[-1, 2, 3, 11, 40, 100, 1 << 30]);
-                v.push(Op::CSetInt(n, if n == 11 && val == 2 { 3 } else { val }));
+                v.push(Op::CSetInt(n, val));
             }
             return v;
         }
-        Op::Engine(k) => return one(Op::CSetInt(11, if k == 2 { 1 } else { k as i32 })),
+        Op::Engine(k) => return one(Op::CSetInt(11, k as i32)),
         // user phrases: the syllables as a Bopomofo string (now and then with stray white space or a word that does not parse)
         Op::Learn(..) | Op::Unlearn(..) => {
             let add = matches!(op, Op::Learn(..));
